@@ -38,6 +38,36 @@ func refIsHead(l string) bool {
 	return l[1+k] == '>' && l[2+k] == '1' && l[3+k] == ' '
 }
 
+// refHeadClass refines refIsHead where the documentation is silent. The recogniser is documented as "possibly a valid syslog
+// record" with the examples <3> and <166>, DESIGN A.1 as "1-3 digits"; RFC 5424 (the protocol the input is documented to
+// speak) defines PRI as 0..191 without leading zeros. A head-shaped line with such a PRI MUST be recognised (the property
+// quantifies over valid records); a head-shaped line with another 1-3 digit numeral (192..999, leading zeros) may or may
+// not be: either answer is accepted. Everything else is not a head.
+const (
+	headNot = iota
+	headMust
+	headEither
+)
+
+func refHeadClass(l string) int {
+	if !refIsHead(l) {
+		return headNot
+	}
+	k := strings.IndexByte(l, '>') // 2..4 by refIsHead
+	num := l[1:k]
+	if len(num) > 1 && num[0] == '0' {
+		return headEither
+	}
+	v := 0
+	for _, c := range num {
+		v = v*10 + int(c-'0')
+	}
+	if v > 191 {
+		return headEither
+	}
+	return headMust
+}
+
 type stream struct {
 	name       string
 	text       string   // newline-terminated
@@ -50,13 +80,33 @@ type stream struct {
 	nPre       int      // number of lines before the first head
 	singleLine bool     // every line from the first head on is a head
 	maxRecord  int      // longest reference unit (records and pre), including its final newline
+	headFn     func(string) bool
+	// alt is the same stream under the other admissible classification of the lines on which the documentation is silent
+	// (head-shaped lines whose PRI numeral RFC 5424 excludes, see refHeadClass); nil if the stream has no such line
+	alt *stream
 }
 
+// newStream builds the reference for a stream. Lines of class headEither are heads in the primary reference (DESIGN A.1 as
+// written) and non-heads in s.alt; a case passes if the outcome satisfies the oracle under either reference.
 func newStream(name, text string) *stream {
+	s := newStreamWith(name, text, refIsHead)
+	for _, l := range s.lines {
+		if refHeadClass(l) == headEither {
+			s.alt = newStreamWith(name, text, func(l string) bool { return refHeadClass(l) == headMust })
+			if s.alt.maxRecord > s.maxRecord {
+				s.maxRecord = s.alt.maxRecord
+			}
+			break
+		}
+	}
+	return s
+}
+
+func newStreamWith(name, text string, headFn func(string) bool) *stream {
 	if !strings.HasSuffix(text, "\n") {
 		panic("stream must be newline-terminated")
 	}
-	s := &stream{name: name, text: text, singleLine: true}
+	s := &stream{name: name, text: text, singleLine: true, headFn: headFn}
 	off := 0
 	for off < len(text) {
 		e := strings.IndexByte(text[off:], '\n') + off
@@ -67,7 +117,7 @@ func newStream(name, text string) *stream {
 	cur := -1
 	first := -1
 	for i, l := range s.lines {
-		h := refIsHead(l)
+		h := headFn(l)
 		s.isHead = append(s.isHead, h)
 		if h {
 			cur = i
@@ -147,12 +197,66 @@ func (d *driver) reader(reuse bool) *tcplistener.VerifMultiLineReader {
 	return tcplistener.VerifNewMultiLineReader(d.read, syslogprotocol.TestRecordStart, d.sz.minBuffer, d.sz.softLimit, d.consume)
 }
 
-// run feeds the fragments text[0:cuts[0]], text[cuts[0]:cuts[1]], ..., flushes after fragment i iff mask bit i, then
-// signals EOF and calls FlushAll. A fragment larger than the free buffer space is delivered by several Read calls (a
-// socket read never returns more than the space offered). Returns the emitted units and the stream offsets of flushes.
-func (d *driver) run(text string, cuts []int, mask uint, reuse bool) (units []string, flushAt []int, wedge string) {
+// feed delivers one fragment. A fragment larger than the free buffer space is delivered by several Read calls (a socket
+// read never returns more than the space offered). Returns a wedge class or "".
+func (d *driver) feed(r *tcplistener.VerifMultiLineReader, frag string) string {
+	d.pending = []byte(frag)
+	for len(d.pending) > 0 {
+		before := len(d.pending)
+		_, app0, _ := r.Offsets()
+		nu := len(d.units)
+		if err := r.Read(); err != nil {
+			return "read-error"
+		}
+		if d.zero || len(d.pending) == before {
+			return "no-buffer-space"
+		}
+		if len(d.pending) > 0 {
+			d.nClipped++
+		}
+		if _, app1, _ := r.Offsets(); app1 == 0 {
+			d.nOverflow++
+		} else if app1 < app0+before-len(d.pending) {
+			d.nRelocate++
+		}
+		if len(d.units) >= nu+2 {
+			d.nMultiPerRead++
+		}
+	}
+	return ""
+}
+
+// flush is one flush tick between two reads.
+func (d *driver) flush(r *tcplistener.VerifMultiLineReader) {
+	nu := len(d.units)
+	r.Flush()
+	if len(d.units) > nu {
+		d.nFlushEmit++
+	}
+	if _, app1, _ := r.Offsets(); app1 > 0 {
+		d.nFlushKeepPartial++
+	}
+}
+
+// finish signals EOF and calls FlushAll, as runConnection does when the peer closes.
+func (d *driver) finish(r *tcplistener.VerifMultiLineReader) string {
+	d.eof = true
+	if err := r.Read(); err != io.EOF {
+		return "eof-not-returned"
+	}
+	r.FlushAll()
+	return ""
+}
+
+func (d *driver) begin() {
 	d.units = d.units[:0]
 	d.eof, d.zero = false, false
+}
+
+// run feeds the fragments text[0:cuts[0]], text[cuts[0]:cuts[1]], ..., flushes after fragment i iff mask bit i, then
+// signals EOF and calls FlushAll. Returns the emitted units and the stream offsets of flushes.
+func (d *driver) run(text string, cuts []int, mask uint, reuse bool) (units []string, flushAt []int, wedge string) {
+	d.begin()
 	r := d.reader(reuse)
 	prev := 0
 	for i := 0; i <= len(cuts); i++ {
@@ -160,47 +264,18 @@ func (d *driver) run(text string, cuts []int, mask uint, reuse bool) (units []st
 		if i < len(cuts) {
 			end = cuts[i]
 		}
-		d.pending = []byte(text[prev:end])
-		for len(d.pending) > 0 {
-			before := len(d.pending)
-			_, app0, _ := r.Offsets()
-			nu := len(d.units)
-			if err := r.Read(); err != nil {
-				return nil, nil, "read-error"
-			}
-			if d.zero || len(d.pending) == before {
-				return nil, nil, "no-buffer-space"
-			}
-			if len(d.pending) > 0 {
-				d.nClipped++
-			}
-			if _, app1, _ := r.Offsets(); app1 == 0 {
-				d.nOverflow++
-			} else if app1 < app0+before-len(d.pending) {
-				d.nRelocate++
-			}
-			if len(d.units) >= nu+2 {
-				d.nMultiPerRead++
-			}
+		if w := d.feed(r, text[prev:end]); w != "" {
+			return nil, nil, w
 		}
 		prev = end
 		if mask>>uint(i)&1 == 1 {
-			nu := len(d.units)
-			r.Flush()
+			d.flush(r)
 			flushAt = append(flushAt, end)
-			if len(d.units) > nu {
-				d.nFlushEmit++
-			}
-			if _, app1, _ := r.Offsets(); app1 > 0 {
-				d.nFlushKeepPartial++
-			}
 		}
 	}
-	d.eof = true
-	if err := r.Read(); err != io.EOF {
-		return nil, nil, "eof-not-returned"
+	if w := d.finish(r); w != "" {
+		return nil, nil, w
 	}
-	r.FlushAll()
 	return d.units, flushAt, ""
 }
 
@@ -238,7 +313,7 @@ func checkEqual(s *stream, units []string, flushed bool) bool {
 				u = u[1:]
 			}
 		} else {
-			for len(u) > 0 && !refIsHead(strings.SplitN(u[0], "\n", 2)[0]) {
+			for len(u) > 0 && !s.headFn(strings.SplitN(u[0], "\n", 2)[0]) {
 				u = u[1:]
 			}
 		}
@@ -453,6 +528,7 @@ func product(n int, allowed []int, f func(ks []int)) {
 type runner struct {
 	ctx    *seq.Ctx
 	scaled *driver
+	mid    *driver // soft limit 128 / buffer 384: for streams whose doubtful line may merge two records' worth of bytes
 	prod   *driver
 	seen   map[string]bool // violation keys already described in this process (seq keeps the first message per key)
 }
@@ -489,8 +565,19 @@ func (r *runner) runCase(d *driver, reuse bool, s *stream, cuts []int, mask uint
 // the overflow handling" into a reported class; a diagnostic, not part of the property.
 var assertNoOverflow = os.Getenv("SEQ_FRAMING_ASSERT_NO_OVERFLOW") != ""
 
-// judge applies the oracles to the outcome of one case.
+// judge applies the oracles to the outcome of one case; where the documentation admits two classifications of a line
+// (s.alt) the outcome only has to satisfy one of the two references.
 func judge(d *driver, s *stream, units []string, flushAt []int, wedge string, mask uint, overLimit bool) (string, string) {
+	k, m := judge1(d, s, units, flushAt, wedge, mask, overLimit)
+	if k != "" && s.alt != nil && wedge == "" {
+		if k2, _ := judge1(d, s.alt, units, flushAt, wedge, mask, overLimit); k2 == "" {
+			return "", ""
+		}
+	}
+	return k, m
+}
+
+func judge1(d *driver, s *stream, units []string, flushAt []int, wedge string, mask uint, overLimit bool) (string, string) {
 	if wedge != "" {
 		return "wedge:" + wedge, "the reader could not take the next fragment"
 	}
@@ -549,6 +636,7 @@ func enumerate(ctx *seq.Ctx) {
 	prodSizes := sizes{"prod", defs.ListenerLineBufferSize, defs.InputLogMaxRecordBytes}
 	r := &runner{ctx: ctx, seen: map[string]bool{},
 		scaled: &driver{sz: sizes{"scaled", 192, 64}},
+		mid:    &driver{sz: sizes{"mid", 384, 128}},
 		prod:   &driver{sz: prodSizes},
 	}
 	all := []int{0, 1, 2, 3, 4, 5}
@@ -622,7 +710,12 @@ func enumerate(ctx *seq.Ctx) {
 	for _, s := range overLimitStreams() {
 		r.stream(r.scaled, false, s, 2)
 	}
-	for _, d := range []*driver{r.scaled, r.prod} {
+	// ---- dimensions added after the red-team review (extra.go)
+	r.recogniserGroups(thorough)
+	r.contentGroups(thorough)
+	r.limitEdgeGroups(thorough)
+	r.twoReaderGroups(thorough)
+	for _, d := range []*driver{r.scaled, r.mid, r.prod} {
 		ctx.Note("reached_in_one_worker_process/"+d.sz.name, fmt.Sprintf("reads clipped by buffer space=%d, overflow resets=%d, reads that relocated the tail=%d, reads emitting >=2 records=%d, flushes that emitted a record=%d, flushes that kept a partial line=%d",
 			d.nClipped, d.nOverflow, d.nRelocate, d.nMultiPerRead, d.nFlushEmit, d.nFlushKeepPartial))
 	}
@@ -692,16 +785,23 @@ func main() {
 			"(single line; 1 and 2 continuation lines; head-prefix-shaped garbage line; trailing empty line; empty line inside a multi-line record) with 2 (thorough 4) kinds of garbage before the first record; " +
 			"for each stream ALL 0-, 1- and 2-cut fragmentations (all 3-cut ones for the two shortest streams; thorough: four streams) x ALL 2^(#fragments) flush placements; reader sizes soft limit 64 / buffer 192 " +
 			"(records 41-61 bytes, so relocation runs on almost every read and buffer-clipped reads occur) and the shipped sizes; four streams with an over-limit record under a weaker oracle; " +
+			"recogniser through the framer (a line between / before / behind two ordinary records, sizes 128/384): head-shaped lines of 28..36 bytes x three PRI widths x three placements, every PRI numeral 0..999 and 21 other spellings, " +
+			"ALL 256 byte values at every role position of '<' DIGITS '>1 ' and the byte behind it (cuts <= 1-2, all flush masks); content: streams over eight kinds of line ends / line bodies (CR LF, mixed, CR-only line, trailing blank / TAB, NUL) " +
+			"with cuts <= 2 and ALL 256 byte values at eight content positions (cuts <= 1; thorough 2); records of 62..64 bytes (the soft limit) under the strict oracle; " +
+			"two readers alive at the same time: every cut of each of two streams x optional flush x ALL 20 interleavings of their operation sequences, each judged against its own reference; " +
 			"oracle = line-based reference framer of DESIGN A.1; non-trivial = at least one cut or one flush",
 		Assumptions: []string{
 			"lines before the first record head are not compared: they may be delivered as units of their own (whole lines, in order, once) or rejected",
 			"a non-head line separated from its head by a flush (flush after the head's newline arrived and before its own newline arrived) may be attached, delivered separately or rejected by the framer; the statement only requires attachment when no flush pause separates them",
 			"a fragment larger than the free buffer space is delivered by consecutive Read calls without a flush in between (a socket read never returns more than the space offered)",
 			"records longer than the soft limit may be cut (documented: 'soft limit', 'the rest of it is cut off'); for streams holding one, only no panic / no wedge, units being disjoint increasing byte ranges of the stream, and exact delivery of the records not adjacent to it from before are required",
-			"flush ticks are modelled as Flush() calls between reads; the timing logic of NetConnWrapper that decides when they happen is not part of this harness",
+			"flush ticks are modelled as Flush() calls between reads; the timing logic of NetConnWrapper and the choice of the flush function in runConnection are decided by part 2 (seq_listener -prop C08)",
+			"a head-shaped line whose 1-3 digit PRI numeral RFC 5424 excludes (192..999, leading zeros) may or may not be recognised as a record start: the case passes if the outcome satisfies the oracle under either classification; PRI 0..191 without leading zeros must be recognised from 32 bytes on",
+			"bytes other than the newline are content: only the final newline is documented as not being part of a record, so CR, blanks, NUL at line ends must come out unchanged on every emit path",
+			"two readers model two connections: they are driven from one goroutine (shared state between instances is visible without real concurrency; data races are not in scope here)",
 		},
 		Enumerate:        enumerate,
-		QuickDeadline:    4 * time.Minute,
+		QuickDeadline:    20 * time.Minute, // a safety net only: machine load must not silently drop the groups enumerated last
 		ThoroughDeadline: 45 * time.Minute,
 	})
 }
